@@ -1,9 +1,22 @@
-import Xp.Model.C20
+import Xp.Proofs.C20Install
 import Xp.Gen.C20Init
 /-
-C20 property theorems (work in progress: the remaining theorems are added below).
+C20 property theorems: initialisation is idempotent and never duplicates or
+clobbers existing state. Statements only; the lemmas live in Xp/Proofs/C20*.lean.
+
+Vocabulary (defined in Model/Proofs):
+* `runSteps g steps n d` – Initializer.Init over a step list, `initSteps cfg` – the
+  step list of core.initCommand.Run, `g` – the certificate generator parameter,
+  `n` – the id of the next generated key pair;
+* `reach sem plan k p s` – every store visible at any instant of running `p` from
+  `s` under fault plan `plan` (any outcome at any API call); `history g steps runs
+  s` – the same over a sequence of runs, each with its own plan;
+* `evalOk p s` – the result of a fault-free run.
 -/
 namespace Xp.C20
+open Xp
+
+/-! ### tie to the source -/
 
 /-- The step list of `initSteps` was written from this transcript of core.initCommand.Run; the
 right-hand side is regenerated from cmd/crossplane/core/init.go on every run. -/
@@ -11,5 +24,98 @@ theorem init_skeleton_matches : initSkeleton = Xp.Gen.c20InitSkeleton := by rfl
 
 /-- initializer.DNSNamesForService, probed on the current tree. -/
 theorem dns_names_for_service_matches : dnsNamesForService "svc" "ns" = Xp.Gen.c20DnsProbe := by decide
+
+/-! ### existing TLS material is kept (for every fault plan, over every history of runs) -/
+
+/-- An existing, complete certificate authority is never regenerated: at every instant of every
+sequence of runs (each aborted anywhere or not) the CA secret is exactly what it was. -/
+theorem ca_kept (g : Generator) (steps : List Step) (runs : List (Plan × Nat)) (s : Store)
+    (ca : String) (sec : Secret) (hca : ca ∈ caNames steps)
+    (h : findSecret s ca = some sec) (hc : isComplete sec = true) :
+    ∀ x ∈ history g steps runs s, findSecret x ca = some sec := by
+  intro x hx
+  exact kept_history g steps runs s x hx ca sec h (Or.inl hc)
+
+/-- Existing TLS certificates are kept: a secret (other than a CA secret) that holds any of
+tls.crt / tls.key / ca.crt is never rewritten. -/
+theorem certs_kept (g : Generator) (steps : List Step) (runs : List (Plan × Nat)) (s : Store)
+    (name : String) (sec : Secret) (hn : name ∉ caNames steps)
+    (h : findSecret s name = some sec) (hm : hasMaterial sec = true) :
+    ∀ x ∈ history g steps runs s, findSecret x name = some sec := by
+  intro x hx
+  refine kept_history g steps runs s x hx name sec h (Or.inr ⟨?_, hm⟩)
+  have : sec.name = name := find_name h
+  rw [this]; exact hn
+
+/-! ### default objects and foreign fields are left untouched -/
+
+/-- Lock, default StoreConfig and default DeploymentRuntimeConfig that already exist are left
+exactly as they are; custom resources are never changed; the fields of packages, CRDs and webhook
+configurations that the initializer does not declare survive every run. -/
+theorem defaults_untouched (g : Generator) (steps : List Step) (runs : List (Plan × Nat)) (s : Store) :
+    ∀ x ∈ history g steps runs s,
+      (∀ v, s.lock = some v → x.lock = some v) ∧
+      (∀ v, s.sc = some v → x.sc = some v) ∧
+      (∀ v, s.drc = some v → x.drc = some v) ∧
+      x.crs = s.crs ∧
+      (∀ k n p, findPkg s k n = some p → ∃ p', findPkg x k n = some p' ∧ p'.extra = p.extra) ∧
+      (∀ n c, findCrd s n = some c → ∃ c', findCrd x n = some c' ∧ c'.extra = c.extra) ∧
+      (∀ k n w, findWhc s k n = some w → ∃ w', findWhc x k n = some w' ∧ w'.extra = w.extra) :=
+  untouched_history g steps runs s
+
+/-! ### packages -/
+
+/-- The repaired lookup: an image whose source is installed (under any object name) resolves to
+the name of an installed package with that source. -/
+theorem requested_image_resolves_to_installed_name (pl : List Pkg) (r : Ref)
+    (h : ∃ q ∈ pl, ∃ r', q.ref = some r' ∧ r'.src = r.src) :
+    ∃ q ∈ pl, (∃ r', q.ref = some r' ∧ r'.src = r.src) ∧ resolve (buildIndex pl) r = q.name :=
+  resolve_hits pl r h
+
+/-- A requested image whose source is already installed is never installed a second time: at every
+instant of the installer step, under every fault plan, every package whose source was installed
+at the start carries the name of a package that existed at the start. -/
+theorem no_second_package (plan : Plan) (k : Nat) (s : Store) (p c f : List Img) :
+    ∀ x ∈ reach sem plan k (installStep p c f) s,
+      ∀ q ∈ x.pkgs, ∀ r, q.ref = some r →
+        (∃ q' ∈ s.pkgs, q'.kind = q.kind ∧ ∃ r', q'.ref = some r' ∧ r'.src = r.src) →
+        ∃ q0 ∈ s.pkgs, q0.kind = q.kind ∧ q0.name = q.name :=
+  installStep_noSecond plan k s p c f
+
+/-- D9 (installer.go at the pinned commit): the index is keyed by the parsed source but looked up
+by the repository only, so a host-qualified image installed under a custom name is installed a
+second time. Witness: provider `my-aws` = xpkg.upbound.io/crossplane/provider-aws:v1.0.0, request
+xpkg.upbound.io/crossplane/provider-aws:v1.1.0. -/
+theorem no_second_package_fails_on_unfixed_witness :
+    let r0 : Ref := ⟨"xpkg.upbound.io", "crossplane/provider-aws", "v1.0.0", false,
+      "xpkg.upbound.io/crossplane/provider-aws:v1.0.0", "xpkg.upbound.io/crossplane/provider-aws"⟩
+    let r1 : Ref := ⟨"xpkg.upbound.io", "crossplane/provider-aws", "v1.1.0", false,
+      "xpkg.upbound.io/crossplane/provider-aws:v1.1.0", "xpkg.upbound.io/crossplane/provider-aws"⟩
+    let s : Store := ⟨[], [⟨.provider, "my-aws", r0.str, some r0, 3⟩], [], [], [], none, none, none⟩
+    let x := (evalOk (installStepDefective [⟨r1.str, some r1⟩] [] []) s).1
+    ¬ (∀ q ∈ x.pkgs, ∀ r, q.ref = some r →
+        (∃ q' ∈ s.pkgs, q'.kind = q.kind ∧ ∃ r', q'.ref = some r' ∧ r'.src = r.src) →
+        ∃ q0 ∈ s.pkgs, q0.kind = q.kind ∧ q0.name = q.name) := by
+  intro r0 r1 s x h
+  have hx : x.pkgs = [⟨.provider, "my-aws", r0.str, some r0, 3⟩,
+      ⟨.provider, "crossplane-provider-aws", r1.str, some r1, 0⟩] := by decide
+  have := h ⟨.provider, "crossplane-provider-aws", r1.str, some r1, 0⟩ (by rw [hx]; simp) r1 rfl
+    ⟨⟨.provider, "my-aws", r0.str, some r0, 3⟩, by simp [s], rfl, r0, rfl, rfl⟩
+  obtain ⟨q0, hq0, _, hn⟩ := this
+  simp [s] at hq0
+  subst hq0
+  simp at hn
+
+/-! ### non-vacuity -/
+
+/-- the repaired installer on the D9 witness updates `my-aws` in place -/
+example :
+    let r0 : Ref := ⟨"xpkg.upbound.io", "crossplane/provider-aws", "v1.0.0", false,
+      "xpkg.upbound.io/crossplane/provider-aws:v1.0.0", "xpkg.upbound.io/crossplane/provider-aws"⟩
+    let r1 : Ref := ⟨"xpkg.upbound.io", "crossplane/provider-aws", "v1.1.0", false,
+      "xpkg.upbound.io/crossplane/provider-aws:v1.1.0", "xpkg.upbound.io/crossplane/provider-aws"⟩
+    let s : Store := ⟨[], [⟨.provider, "my-aws", r0.str, some r0, 3⟩], [], [], [], none, none, none⟩
+    (evalOk (installStep [⟨r1.str, some r1⟩] [] []) s).1.pkgs = [⟨.provider, "my-aws", r1.str, some r1, 3⟩] := by
+  decide
 
 end Xp.C20
